@@ -10,16 +10,17 @@
 int pieceValue[Piece::nPieceTypes];
 DEFINE_PARAM(kV);
 
-alignas(16) static unsigned char mlmem[sizeof(MoveList)];
+static RawBox<MoveList> mlBox;
 static int popcnt(U64 m) { int c = 0; for (int i = 0; i < 64; i++) c += (int)((m >> i) & 1); return c; }
 
 extern "C" {
 
-// param: 0 addMovesByMask, 1 addPawnMovesByMask<white>, 2 addPawnMovesByMask<black>, 3 addPawnDoubleMovesByMask
+// param & 3: 0 addMovesByMask, 1 addPawnMovesByMask<white>, 2 addPawnMovesByMask<black>, 3 addPawnDoubleMovesByMask; param >> 2: initial list fill
 void h_expand(void) {
-    int which = (int)verif_param();
-    MoveList& ml = *reinterpret_cast<MoveList*>(mlmem);
-    int s0 = nondet_int(); ASSUME(s0 >= 0 && s0 <= 180);
+    int which = (int)verif_param() & 3;
+    MoveList& ml = mlBox.obj;
+    static const int fills[3] = {0, 5, 200};             // list fill before the call: a per-query constant (symbolic fills made the query explode)
+    int s0 = fills[((int)verif_param() >> 2) % 3];
     ml.size = s0;
     // one arbitrary pre-existing entry is tracked to show older entries are not disturbed
     int probe = nondet_int(); ASSUME(probe >= 0 && probe < s0 + 1 && probe < 256);
